@@ -98,6 +98,22 @@ func interactionPrograms() []string {
 			out = append(out, fmt.Sprintf(`%s; r = catch(func() {%s}()); if r.err {println("E")} else {println(r.value)}`, build, u))
 		}
 	}
+	// (F) every way a counted-loop variable or integer parameter (held in a register) can be stored: the stored value must be
+	//     the value at that time, whatever the register does afterwards (later iterations, ++, later loops reusing the slot)
+	for _, name := range []string{"k", "KK"} { // KK: an all-caps constant bound for the first time from the register
+		binds := []string{"%s = R", "%s = [R]", `%s = {"a": R}`, "%s = {R: 1}", "%s = [R, R + 1]", "%s = R + 0", "%s = (x => x)(R)", `%s = catch(R).value`, "%s = (if true {R} else {0})", "%s = -(-R)", "%s = [[R]]", "%s = first([R])"}
+		if name == "k" {
+			binds = append(binds, "%s := R", "%s = 0; %s = R", "%s = [0]; %s[0] = R", "%s = {}; %s.a = R", "%s = {}; %s[R] = R")
+		}
+		for _, b := range binds {
+			loopB := strings.ReplaceAll(strings.ReplaceAll(b, "%s", name), "R", "i")
+			parB := strings.ReplaceAll(strings.ReplaceAll(b, "%s", name), "R", "n")
+			out = append(out, fmt.Sprintf(`for i = 3 {if i == 0 {%s}; println(%s)}; println(%s); for j = 10 {}; println(%s)`, loopB, name, name, name))
+			out = append(out, fmt.Sprintf(`for i = 1:4 {for q = 2 {if i == 1 && q == 0 {%s}}}; for j = 10 {for z = 10 {}}; println(%s)`, loopB, name))
+			out = append(out, fmt.Sprintf(`f = func(n) {%s; ++n; --n; ++n; println(%s, n); %s}; println(f(5)); for j = 10 {}; println(catch(%s).err)`, parB, name, name, name))
+			out = append(out, fmt.Sprintf(`%s0 = 0; f = func(n) {g = func() {%s}; g(); ++n; %s}; println(catch(f(5)).err)`, name, strings.ReplaceAll(parB, name, name+"0"), name+"0"))
+		}
+	}
 	// containers reached through references
 	for _, a := range []string{"x[0] = 5", `x.k = 5`, "del(x[0])", "x = x + 1", "x = x + x", "del(x)"} {
 		for _, init := range []string{"[1, 2, 3]", `{"k": 1, 0: 2}`, "1:12", `{1: 1, 2: 2, 3: 3, 4: 4, 5: 5}`} {
